@@ -85,6 +85,13 @@ def check_single(ck, o, types):
         bad.append(("truthiness", "IsFalsy gives %s, expected %s" % (o["falsy_api"], exp_f)))
     if o["falsy_script"] is not exp_f:
         bad.append(("truthiness", "!x gives %s, expected %s" % (o["falsy_script"], exp_f)))
+    # x == x: whatever == answers for two values of this kind that are "the same" (NaN and functions are never equal, not even to themselves),
+    # and != is its negation, whether the two sides are one object or two
+    if "self_eq" in o:
+        reflexive = not ("nan" in name or o["t"] in ("function", "builtin"))
+        if o["self_eq"] is not reflexive or o["self_ne"] is not (not reflexive) or o["alias_eq"] is not reflexive or o["self_api"] is not reflexive:
+            bad.append(("self-equality", "x == x gives %s, x != x gives %s, [x][0] == x gives %s, x.Equals(x) gives %s; expected %s / %s" % (
+                o["self_eq"], o["self_ne"], o["alias_eq"], o["self_api"], reflexive, not reflexive)))
     c = o["copy"]
     if c.get("nil"):
         bad.append(("copy-nil", "Copy() returned nil"))
